@@ -236,7 +236,16 @@ def main_wrapper(fn, pid, argv):
     run = Run(pid, tier=tier, seed=seed)
     try:
         if replay:
-            return fn(run, replay=replay)
+            rec = json.load(open(replay, encoding='utf-8'))
+            print("replaying obligation: %s" % rec.get("obligation"))
+            cmd = (rec.get("counterexample") or {}).get("replay_cmd")
+            if cmd:
+                import subprocess
+                print("$ " + cmd)
+                p = subprocess.run(cmd, shell=True, capture_output=True, text=True)
+                print(p.stdout.strip() or p.stderr.strip()[-500:])
+                print("expected by oracle: %s" % (rec.get("counterexample") or {}).get("python_oracle", (rec.get("counterexample") or {}).get("oracle")))
+            print("re-running the check on the current tree:")
         fn(run)
     except (Undecided, LostAnchor) as e:
         run.undecided.append("%s: %s" % (type(e).__name__, e))
